@@ -276,6 +276,50 @@ pub fn check(tape: &[u32]) -> CheckResult {
         Err(e) => return Err(Failure::new("load-error", format!("well-formed file failed to load: {}", e)).with(json!({"model": summarize(&s), "plan": format!("{:?}", plan)}))),
     };
     compare_structure(&s, &f).map_err(|f| f.with(json!({"model": summarize(&s), "plan": format!("{:?}", plan), "file_hex_prefix": hex(&enc.bytes[..enc.bytes.len().min(256)])})))?;
+    // layers() as an Iterator: a short program of iterator operations drawn from the tape must behave exactly like
+    // the same program on a Vec of the layer ids (exhaustion, nth past the end, last/count after partial use)
+    {
+        let n = f.num_layers();
+        let mut it = f.layers();
+        let mut model = (0..n).collect::<Vec<u32>>().into_iter();
+        let mut prog = vec![];
+        for k in 0..6u32 {
+            let op = (tape.get(k as usize).copied().unwrap_or(0) ^ (tape.len() as u32).wrapping_mul(2654435761)) >> 7;
+            let arg = (op >> 8) as usize % (n as usize + 3);
+            let (got, want, name): (String, String, String) = match op % 7 {
+                0 => (format!("{:?}", it.next().map(|l| l.id())), format!("{:?}", model.next()), "next".into()),
+                1 => (format!("{:?}", it.nth(arg).map(|l| l.id())), format!("{:?}", model.nth(arg)), format!("nth({})", arg)),
+                2 => (format!("{:?}", it.by_ref().take(arg).map(|l| l.id()).collect::<Vec<_>>()), format!("{:?}", model.by_ref().take(arg).collect::<Vec<_>>()), format!("by_ref().take({})", arg)),
+                3 => {
+                    let (a, b) = (it.size_hint(), model.size_hint());
+                    // a hint only has to be consistent with the truth
+                    let truth = b.0;
+                    (format!("{}", a.0 <= truth && a.1.map_or(true, |u| u >= truth)), "true".into(), "size_hint".into())
+                }
+                4 if k >= 3 => {
+                    let r = (format!("{:?}", it.last().map(|l| l.id())), format!("{:?}", model.last()), "last".to_string());
+                    prog.push(r.2.clone());
+                    if r.0 != r.1 {
+                        return Err(Failure::new("layers-iterator", format!("layers() after {:?}: last() = {}, a Vec of the layer ids gives {}", prog, r.0, r.1)));
+                    }
+                    break;
+                }
+                5 if k >= 3 => {
+                    let r = (format!("{}", it.count()), format!("{}", model.count()), "count".to_string());
+                    prog.push(r.2.clone());
+                    if r.0 != r.1 {
+                        return Err(Failure::new("layers-iterator", format!("layers() after {:?}: count() = {}, a Vec of the layer ids gives {}", prog, r.0, r.1)));
+                    }
+                    break;
+                }
+                _ => (format!("{:?}", it.next().map(|l| l.id())), format!("{:?}", model.next()), "next".into()),
+            };
+            prog.push(name);
+            if got != want {
+                return Err(Failure::new("layers-iterator", format!("layers() driven by {:?}: last step gives {}, a Vec of the layer ids gives {}", prog, got, want)));
+            }
+        }
+    }
     // every eighth case: a sibling sprite (same colours and structure, every name different) is loaded while this
     // one is still alive; each must report its own data
     if tape.len() % 8 == 3 && enc.bytes.len() < 200_000 {
